@@ -186,6 +186,20 @@ def _body(ctx, conv, shape, bounds, as_coords, layout, nan_cells=None, mesh_opts
                           'a corner of a cell (also on the outer edge of the model) is found in a cell that touches it')
     if ctx.symbolic:
         cv.__dict__['strtree'] = tree
+    else:
+        # the older, deprecated way to ask the same question (Convention.spatial_index) answers with the same cells
+        import warnings as _w
+        with _w.catch_warnings():
+            _w.simplefilter('ignore')
+            old = cv.spatial_index
+            oks = []
+            for n in range(N):
+                if polygons[n] is None or not (polygons[n].is_valid and polygons[n].area > 0):
+                    continue
+                found = [it for _, it in old.query(polygons[n].representative_point()) if it.polygon.intersects(polygons[n].representative_point())]
+                oks.append(any(int(it.linear_index) == n and it.polygon is polygons[n] and tuple(it.index) == tuple(P.native(n)) for it in found)
+                           and all(polygons[int(it.linear_index)] is it.polygon for it in found))
+        ctx.check(all(oks), 'the deprecated spatial index reports the linear index, native index and polygon of the same cells')
 
 
 def body_large(ctx):
@@ -277,7 +291,9 @@ def cases(tier):
         for mo in (dict(), dict(start_index=1, fill='attr', face_centres=True),
                    dict(transposed=True, supply=('edge_node',), face_centres=True),
                    # unsigned tables with the all-ones fill value kept as an attribute (in-memory / mask_and_scale=False)
-                   dict(fill='attr', dtype='uint32', fill_value=4294967295), dict(fill='attr', dtype='uint16', fill_value=65535, start_index=1)):
+                   dict(fill='attr', dtype='uint32', fill_value=4294967295), dict(fill='attr', dtype='uint16', fill_value=65535, start_index=1),
+                   # start_index stored as the text "0" / "1"
+                   dict(start_index=0, start_index_as_text=True), dict(start_index=1, fill='attr', fill_value=0, start_index_as_text=True)):
             if mo.get('dtype', '').startswith('uint') and mesh in ('fan', 'qqq'):
                 continue
             if mesh in ('fan', 'qqq') and mo.get('fill') == 'attr':
